@@ -929,6 +929,7 @@ func TestVerifC11(t *testing.T) {
 		}
 		c := g.program()
 		c.OneParser = rapid.Bool().Draw(t, "oneparser")
+		c.Poison = c.OneParser && rapid.IntRange(0, 3).Draw(t, "poison") == 0
 		fail, _ := c11Run(c)
 		var labels []string
 		add := func(on bool, l string) {
@@ -951,6 +952,7 @@ func TestVerifC11(t *testing.T) {
 		add(g.stats.pkgRefs > 0, "package-element-naming-an-object")
 		add(g.stats.shadowed > 0, "method-shadowing-a-method-of-an-enclosing-scope")
 		add(g.stats.homonyms > 0, "homonym-of-a-nested-scope-directive's-target")
+		add(c.Poison, "loaded-by-a-parser-that-rejected-a-table-before")
 		add(g.stats.deepChain > 0, "devices-nested-8-or-more-deep")
 		add(g.stats.deepChain >= 62, "devices-nested-62-or-more-deep")
 		labels = append(labels, fmt.Sprintf("tables=%d", g.stats.tables))
